@@ -16,7 +16,7 @@ import scenario_common as sc
 import mcrapid
 
 LIMIT = 6 * 1024 * 1024 + 100
-KINDS = ["ok", "ok", "error", "oversize", "timeout", "exit", "abort", "repoll"]
+KINDS = ["ok", "ok", "error", "oversize", "timeout", "exit", "abort", "repoll", "answered-timeout", "upper-first"]
 
 
 def sizes(rnd, thorough):
@@ -102,6 +102,19 @@ def one(sid, rnd, kinds, thorough, fe=False):
         elif kind == "timeout":
             s.wait(it)          # the runtime never answers: timeout, reset, new generation
             fresh = True
+        elif kind == "answered-timeout":
+            # the runtime answers but never polls again: the invocation is not complete, it times out, and the
+            # caller gets the timeout outcome only
+            s.call("rt", "response", id="current", size=sizes(rnd, thorough), seed=rnd.randrange(1, 10 ** 6))
+            s.wait(it)
+            fresh = True
+        elif kind == "upper-first":
+            # a submission whose id differs from the current one in letter case only is refused and has no effect:
+            # the genuine answer is still accepted and reaches the caller
+            s.call("rt", "response", id="upper", body="case-variant")
+            s.call("rt", "response", id="current", size=sizes(rnd, thorough), seed=rnd.randrange(1, 10 ** 6))
+            polltag = s.poll("rt")
+            s.wait(it)
         elif kind == "exit":
             s.exit("rt", code=rnd.choice([0, 1, 137]))
             s.wait(it)
@@ -111,10 +124,10 @@ def one(sid, rnd, kinds, thorough, fe=False):
 
 def fe_scenarios(ctx, prefix="c01"):
     rnd = random.Random(ctx.seed * 7919 + 11)
-    hist = [["ok", "ok"], ["error"], ["timeout"], ["exit"], ["oversize"], ["repoll"], ["badctx", "ok"], ["second"],
+    hist = [["ok", "ok"], ["error"], ["timeout"], ["exit"], ["oversize"], ["repoll"], ["badctx", "ok"], ["second"], ["answered-timeout"],
             ["timeout", "error"], ["exit", "second"], ["ok", "badctx", "timeout"]]
     if not ctx.quick:
-        kinds = ["ok", "error", "oversize", "timeout", "exit", "repoll", "badctx", "second"]
+        kinds = ["ok", "error", "oversize", "timeout", "exit", "repoll", "badctx", "second", "answered-timeout", "upper-first"]
         hist += [[a, b] for a in kinds for b in kinds]
         hist += [[rnd.choice(kinds) for _ in range(rnd.randrange(3, 6))] for _ in range(30)]
     return [one("%s-fe%03d" % (prefix, i + 1), rnd, h + ["ok"], not ctx.quick and i % 7 == 0, fe=True) for i, h in enumerate(hist)]
@@ -126,7 +139,7 @@ def scenarios(ctx):
     n = 0
     # all histories of length <= 2 over the five kinds, then random longer ones
     kinds = ["ok", "error", "oversize", "timeout", "exit", "abort", "repoll"]
-    hist = [[a] for a in kinds] + [[a, b] for a in kinds for b in kinds]
+    hist = [["answered-timeout"], ["upper-first"], ["upper-first", "answered-timeout"]] + [[a] for a in kinds] + [[a, b] for a in kinds for b in kinds]
     if ctx.quick:
         hist = [h for h in hist if "oversize" not in h or len(h) == 1 or h[1] == "ok"]
     for h in hist:
